@@ -49,6 +49,10 @@ func init() {
 			{Name: "id", Num: 1, Type: TString},
 			{Name: "home", Num: 2, Type: TMessage, TypeName: p + "Child", Ext: []ExtV{flatten()}},
 		}}
+		flatann := M{Name: "FlattenAnnotatedMsg", Fields: []F{
+			{Name: "id", Num: 1, Type: TString},
+			{Name: "stats", Num: 2, Type: TMessage, TypeName: p + "Int64Msg", Ext: []ExtV{flatten(), flattenPrefix("s_")}},
+		}}
 		text := M{Name: "Text", Fields: []F{{Name: "body", Num: 1, Type: TString}}}
 		image := M{Name: "Image", Fields: []F{{Name: "url", Num: 1, Type: TString}, {Name: "width", Num: 2, Type: TInt32}}}
 		oneofm := M{Name: "OneofMsg", Oneofs: []O{{Name: "content", Ext: []ExtV{oneofConfig("type", false)}}}, Fields: []F{
@@ -75,7 +79,7 @@ func init() {
 		return Schema{Files: []File{{
 			Name: "gen/codecs/codecs.proto", Package: "acme.codecs", GoPackage: "verifmod/gen/codecs;codecs",
 			Deps:     []string{"proto/sebuf/http/annotations.proto"},
-			Messages: []M{child, small, int64m, nullm, emptym, flatm, flatchild, text, image, oneofm, oneofflat, bytesm, holder},
+			Messages: []M{child, small, int64m, nullm, emptym, flatm, flatchild, flatann, text, image, oneofm, oneofflat, bytesm, holder},
 			Services: []S{{Name: "CodecService", Methods: []Me{
 				{Name: "EchoInt64", In: p + "Int64Msg", Out: p + "Int64Msg", Ext: []ExtV{HTTP(sh.HttpMethod_HTTP_METHOD_POST, "/int64")}},
 				{Name: "EchoHolder", In: p + "Holder", Out: p + "Holder", Ext: []ExtV{HTTP(sh.HttpMethod_HTTP_METHOD_POST, "/holder")}},
